@@ -17,6 +17,7 @@ import (
 	"fmt"
 	"github.com/acquirecloud/golibs/errors"
 	"io"
+	"math"
 )
 
 type (
@@ -54,6 +55,10 @@ var _ RingBuffer[int] = (*ringBuffer[int])(nil)
 
 // NewRingBuffer returns the new instance of the *ringBuffer (which implements the RingBuffer)
 func NewRingBuffer[V any](size uint) *ringBuffer[V] {
+	if size >= math.MaxInt {
+		// size+1 slots cannot be allocated (and size+1 wraps around to 0 for the maximum uint)
+		panic(fmt.Sprintf("ringBuffer: the size %d is too big", size))
+	}
 	return &ringBuffer[V]{buf: make([]V, size+1)}
 }
 
